@@ -145,6 +145,27 @@ def pair_record(rid, kl, kr, spin, pa, pb, pool):
         e["a_same"] = list(dict.items(a)) == a0 and type(a).__name__ == kl
         e["b_same"] = list(dict.items(b)) == b0 and type(b).__name__ == kr
         rec["ops"].append(e)
+    # the in-place forms, each on a fresh copy of a (built like a, not by copy()): value and bookkeeping afterwards
+    for opname in ("iadd", "isub", "imul", "update"):
+        e = {"op": opname, "raised": "", "res": [], "rkind": "", "a_same": True, "b_same": True, "comm": "na", "vars": [], "deg": 0, "nvars": 0}
+        a2 = _cls(kl)(ta)
+        try:
+            if opname == "iadd":
+                a2 += b
+            elif opname == "isub":
+                a2 -= b
+            elif opname == "imul":
+                a2 *= b
+            else:
+                a2.update(b)
+            e["res"], e["rkind"] = raw(a2), type(a2).__name__
+            e["vars"] = [names.get((type(x).__name__, x), "?") for x in a2.variables]
+            dg = a2.degree
+            e["deg"], e["nvars"] = (int(dg) if dg == dg and abs(dg) < 10 ** 6 else -1), int(a2.num_binary_variables)
+        except Exception as ex:      # noqa
+            e["raised"] = type(ex).__name__
+        e["b_same"] = list(dict.items(b)) == b0 and type(b).__name__ == kr
+        rec["ops"].append(e)
     return rec
 
 
@@ -192,7 +213,7 @@ def pairs_tier(out, wd, rng, thorough):
     with ProcessPoolExecutor(max_workers=14 if not thorough else 8) as ex:
         results = list(ex.map(_pair_chunk, args))
     out.set("operand_pair_universe", dict(desc, left_operands=len(lefts), right_operands=len(polys), class_pairs=len(pairs),
-                                          operators=["add", "sub", "mul"]))
+                                          operators=["add", "sub", "mul", "iadd", "isub", "imul", "update"]))
     for res in results:
         out.add("operand_pairs_run", res["n"])
         out.add("states", res["distinct"])
